@@ -47,7 +47,7 @@ def run(src, tier, seed):
             if name in boolctor.DEFS:
                 n, bad = boolctor.check_constructor(fx, f, name, ev)
             else:
-                n, bad = boolctor.check_nary(fx, f, name, ev)
+                n, bad = boolctor.check_nary(fx, f, name, ev, max_len=4 if tier == 'thorough' else 3, all_orders=(tier == 'thorough'))
         except Unmodelled as e:
             raise AnalysisBroken('Logic::%s is outside the modelled subset: %s' % (name, e))
         for combo, out, why in bad[:3]:
@@ -63,7 +63,7 @@ def run(src, tier, seed):
     ev = dict(ctor_eval)
     ev['mkDistinct'] = lambda a: ('distinct',) + tuple(a)
     try:
-        n, bad = boolctor.check_distinct(fx, f, ev)
+        n, bad = boolctor.check_distinct(fx, f, ev, max_len=5 if tier == 'thorough' else 4)
     except Unmodelled as e:
         raise AnalysisBroken('Logic::mkDistinct is outside the modelled subset: %s' % e)
     for combo, out, why in bad[:1]:
